@@ -234,7 +234,10 @@ func (qr *queryRequest) executeCallback(cb func(QueryRequest)) {
 				// a valid way of sending an error response.
 				return
 			}
-			str = e.Message
+			// A nil *Error must not make the recover itself panic.
+			if e != nil {
+				str = e.Message
+			}
 		case error:
 			str = e.Error()
 			if !qr.replied {
